@@ -1,6 +1,6 @@
 (* PlaSound.v — soundness of OptimalPiecewiseLinearModel::add_point / get_segment:
    both extreme lines of the reported segment are within the band of every fed point. *)
-Require Import Base PlaModel PlaSpec PlaComplete PlaSoundGeom PlaSoundInv.
+Require Import Base PlaModel PlaSpec PlaCert Greedy PlaComplete PlaSoundGeom PlaSoundInv.
 Local Open Scope Z_scope.
 
 Lemma pt_eqb_refl : forall a, pt_eqb a a = true.
@@ -136,4 +136,249 @@ Proof.
       apply reported_line_sound; [|exact Hmax].
       unfold one_point. cbn [c_r0 c_r2]. rewrite (pt_eqb_x_neq _ _ H02). reflexivity.
 Qed.
+
+(* ====================== lifting to the segmentation drivers ====================== *)
+Lemma feasible_of_max_line : forall eps c pts,
+  one_point c = false -> max_line_feasible eps c pts -> feasible eps pts.
+Proof.
+  intros eps c pts Hop H. unfold max_line_feasible in H. rewrite Hop in H. destruct H as [Hd Hall].
+  set (dx := fst (psub (c_r3 c) (c_r1 c))) in *.
+  set (dy := snd (psub (c_r3 c) (c_r1 c))) in *.
+  exists dy, dx, (snd (c_r1 c) * dx - dy * fst (c_r1 c)), dx.
+  split; [exact Hd|]. split; [exact Hd|].
+  eapply Forall_impl; [|exact Hall]. intros [x y] Hb.
+  unfold line_in_band in Hb. unfold qline_in_band.
+  assert (E : dy * x * dx + (snd (c_r1 c) * dx - dy * fst (c_r1 c)) * dx =
+              (snd (c_r1 c) * dx + dy * (x - fst (c_r1 c))) * dx) by ring.
+  rewrite E. destruct Hb as [Hb1 Hb2].
+  split; apply Z.mul_le_mono_nonneg_r; lia.
+Qed.
+
+Lemma sinv_feasible_block : forall eps cur s,
+  cur <> [] -> rect_inv eps cur s -> sinv eps cur s -> feasible eps cur.
+Proof.
+  intros eps cur s Hne Hrect Hs.
+  destruct (sinv_feasible eps cur s Hne Hrect Hs) as [Hmax _].
+  destruct Hrect as (He & Hn & _ & I2 & _). destruct Hs as (S1 & S2 & S3).
+  assert (Hlen : 1 <= zlen cur).
+  { destruct cur; [contradiction|]. unfold zlen. cbn [length]. lia. }
+  destruct (Z.eq_dec (p_n s) 1) as [E | E].
+  - destruct (S1 E) as (x0 & y0 & -> & _ & _ & _ & _ & Hb).
+    exists 0, 1, (band_lo eps y0), 1. split; [lia|]. split; [lia|].
+    constructor; [|constructor]. unfold qline_in_band. lia.
+  - assert (H2 : 2 <= p_n s) by lia. destruct (I2 H2) as (_ & _ & H02 & _).
+    apply (feasible_of_max_line eps (get_segment s)); [|exact Hmax].
+    unfold get_segment. destruct (p_n s =? 1) eqn:E1; [apply Z.eqb_eq in E1; lia|].
+    unfold one_point. cbn [c_r0 c_r2]. rewrite (pt_eqb_x_neq _ _ H02). reflexivity.
+Qed.
+
+Lemma reject_same_segment : forall s x y s',
+  add_point y_size_t s x y = Ok (false, s') -> get_segment s' = get_segment s.
+Proof.
+  intros s x y s' H. destruct (add_point_reject_state _ _ _ _ _ H) as (N0 & N1 & ->).
+  unfold get_segment. cbn [p_n p_r0 p_r1 p_r2 p_r3 p_first_x].
+  destruct (p_n s =? 1) eqn:E; [apply Z.eqb_eq in E; contradiction | reflexivity].
+Qed.
+
+Section Premises.
+  Variable eps : Z.
+  Hypothesis Heps : 0 <= eps.
+
+  Lemma P_first : forall s x y s',
+    p_n s = 0 -> p_eps s = eps -> rank_ok eps y ->
+    add_point y_size_t s x y = Ok (true, s') -> sinv eps [(x, y)] s'.
+  Proof. intros s x y s' Hn He Hrk H. apply (sinv_first eps s x y s'); assumption. Qed.
+
+  Lemma P_step : forall cur s x y s',
+    cur <> [] -> rect_inv eps cur s -> sinv eps cur s -> rank_ok eps y ->
+    add_point y_size_t s x y = Ok (true, s') -> sinv eps (cur ++ [(x, y)]) s'.
+  Proof. intros cur s x y s' _ Hr Hs Hrk H. apply (sinv_step eps cur s x y s'); assumption. Qed.
+
+  Lemma P_ok : forall cur s, cur <> [] -> rect_inv eps cur s -> sinv eps cur s -> feasible eps cur.
+  Proof. intros cur s. apply sinv_feasible_block. Qed.
+
+  Lemma P_R : forall cur s,
+    cur <> [] -> rect_inv eps cur s -> sinv eps cur s -> seg_rel eps (get_segment s) cur.
+  Proof. intros cur s. apply sinv_seg_rel. exact Heps. Qed.
+
+  Lemma P_R_reject : forall cur s x y s',
+    cur <> [] -> rect_inv eps cur s -> sinv eps cur s ->
+    add_point y_size_t s x y = Ok (false, s') -> seg_rel eps (get_segment s') cur.
+  Proof.
+    intros cur s x y s' Hne Hr Hs H. rewrite (reject_same_segment s x y s' H).
+    apply sinv_seg_rel; assumption.
+  Qed.
+End Premises.
+
+Lemma blocks_ok_of_Forall2 : forall eps segs g,
+  Forall (fun b => b <> [] /\ feasible eps b) g -> Forall2 (seg_rel eps) segs g ->
+  blocks_ok eps segs g.
+Proof.
+  intros eps segs g Hg HR. induction HR as [|c b cs bs Hcb _ IH]; [exact I|].
+  inversion Hg as [|b0 bs0 [Hne _] Hg']; subst.
+  destruct Hcb as (Hf & Hcl & Hmax & Hmin).
+  cbn [blocks_ok]. repeat split; try assumption. apply IH. exact Hg'.
+Qed.
+
+Lemma chunk_Err_neg_eps : forall kt n start eps chunk rest r,
+  eps < 0 -> make_segmentation_chunk kt n start eps chunk rest = Ok r -> False.
+Proof.
+  intros kt n start eps chunk rest r He H. unfold make_segmentation_chunk, pla_init in H.
+  assert (E : (eps <? 0) = true) by (apply Z.ltb_lt; exact He). rewrite E in H.
+  cbn [bind] in H. discriminate H.
+Qed.
+
+Lemma eps_nonneg_of_chunk : forall kt n start eps chunk rest r,
+  make_segmentation_chunk kt n start eps chunk rest = Ok r -> 0 <= eps.
+Proof.
+  intros kt n start eps chunk rest r H. destruct (Z_lt_ge_dec eps 0) as [Hl | Hg]; [|lia].
+  exfalso. exact (chunk_Err_neg_eps _ _ _ _ _ _ _ Hl H).
+Qed.
+
+(* one chunk: the emitted segments correspond one-to-one, in order, to the consecutive non-empty
+   blocks of a greedy partition of the fed points; each block is within eps + 1/2 of its segment's
+   reported line and within eps of both extreme lines *)
+Theorem make_segmentation_chunk_sound : forall kt n start eps chunk rest segs fed count,
+  make_segmentation_chunk kt n start eps chunk rest = Ok (segs, fed, count) ->
+  0 <= start -> start + zlen chunk <= n -> n + eps < 2 ^ 64 - 1 ->
+  exists g, is_partition (feasible eps) fed g /\ greedy (feasible eps) g /\ zlen g = count /\
+            blocks_ok eps segs g /\
+            (forall p, is_partition (feasible eps) fed p -> count <= zlen p).
+Proof.
+  intros kt n start eps chunk rest segs fed count H Hs He Hn.
+  pose proof (eps_nonneg_of_chunk _ _ _ _ _ _ _ H) as Heps.
+  destruct (make_segmentation_chunk_optimal eps (seg_rel eps) (sinv eps)
+              (P_first eps Heps) (P_step eps Heps) (P_ok eps) (P_R eps Heps) (P_R_reject eps Heps)
+              kt n start chunk rest segs fed count H Hs He Hn) as [(g & G1 & G2 & G3 & G4) Hopt].
+  exists g. split; [exact G1|]. split; [exact G2|]. split; [exact G3|]. split; [|exact Hopt].
+  destruct G1 as [_ G1]. apply blocks_ok_of_Forall2; assumption.
+Qed.
+
+Theorem make_segmentation_sound : forall kt n eps data segs fed count,
+  make_segmentation kt n eps data = Ok (segs, fed, count) ->
+  zlen data <= n -> n + eps < 2 ^ 64 - 1 ->
+  exists g, is_partition (feasible eps) fed g /\ greedy (feasible eps) g /\ zlen g = count /\
+            blocks_ok eps segs g /\
+            (forall p, is_partition (feasible eps) fed p -> count <= zlen p).
+Proof.
+  intros kt n eps data segs fed count H Hd Hn. unfold make_segmentation in H.
+  apply (make_segmentation_chunk_sound kt n 0 eps data [] segs fed count H); lia.
+Qed.
+
+(* the optimality theorem of PlaComplete.v, now without hypotheses on the builder *)
+Theorem make_segmentation_optimal_closed : forall kt n eps data segs fed count,
+  make_segmentation kt n eps data = Ok (segs, fed, count) ->
+  zlen data <= n -> n + eps < 2 ^ 64 - 1 ->
+  forall p, is_partition (feasible eps) fed p -> count <= zlen p.
+Proof.
+  intros kt n eps data segs fed count H Hd Hn.
+  destruct (make_segmentation_sound kt n eps data segs fed count H Hd Hn) as (g & _ & _ & _ & _ & Hopt).
+  exact Hopt.
+Qed.
+
+(* ---- the parallel driver ---- *)
+Lemma par_chunks_eps_nonneg : forall kt n eps cs par data is_ r,
+  par_chunks kt n eps cs par data (0 :: is_) = Ok r -> 0 <= eps.
+Proof.
+  intros kt n eps cs par data is_ r H.
+  destruct (Z_lt_ge_dec eps 0) as [Hl | Hg]; [|lia]. exfalso.
+  cbn [par_chunks] in H. rewrite Z.mul_0_l in H.
+  change (0 >? 0) with false in H. cbv iota in H.
+  match type of H with
+  | bind (bind ?e _) _ = _ => destruct e as [v|er] eqn:E
+  | bind ?e _ = _ => destruct e as [v|er] eqn:E
+  end.
+  - exact (chunk_Err_neg_eps _ _ _ _ _ _ _ Hl E).
+  - cbn [bind] in H. discriminate H.
+Qed.
+
+Lemma chunk_shape_concat : forall eps chunks gs,
+  Forall2 (chunk_shape eps (feasible eps)) chunks gs ->
+  concat (concat gs) = concat chunks /\
+  Forall (fun b => b <> [] /\ feasible eps b) (concat gs).
+Proof.
+  intros eps chunks gs H. induction H as [|li gi ls gs' [S1 [S2 _]] _ [IH1 IH2]].
+  - split; [reflexivity | constructor].
+  - cbn [concat]. split.
+    + rewrite concat_app, IH1, S1. reflexivity.
+    + apply Forall_app. split; assumption.
+Qed.
+
+Theorem make_segmentation_par_sound : forall kt threshold par n eps data segs fed count,
+  make_segmentation_par kt threshold par n eps data = Ok (segs, fed, count) ->
+  1 <= par -> zlen data <= n -> n + eps < 2 ^ 64 - 1 ->
+  exists g, is_partition (feasible eps) fed g /\ zlen g = count /\ blocks_ok eps segs g /\
+            (forall p, is_partition (feasible eps) fed p -> count <= zlen p + (par - 1)).
+Proof.
+  intros kt threshold par n eps data segs fed count H Hpar Hd Hn.
+  unfold make_segmentation_par in H.
+  destruct ((par =? 1) || (n <? threshold)) eqn:Eseq.
+  - destruct (make_segmentation_sound kt n eps data segs fed count H Hd Hn)
+      as (g & G1 & _ & G3 & G4 & Hopt).
+    exists g. split; [exact G1|]. split; [exact G3|]. split; [exact G4|].
+    intros p Hp. pose proof (Hopt p Hp). lia.
+  - assert (Hz : zseq 0 (Z.to_nat par) = 0 :: zseq (0 + 1) (Z.to_nat par - 1)).
+    { destruct (Z.to_nat par) as [|k] eqn:Ek; [lia|]. cbn [zseq]. f_equal. f_equal. lia. }
+    assert (Heps : 0 <= eps).
+    { rewrite Hz in H. exact (par_chunks_eps_nonneg _ _ _ _ _ _ _ _ H). }
+    pose proof (zlen_nonneg _ data) as Hd0.
+    assert (Hn0 : 0 <= n) by lia.
+    assert (Hcs : 0 <= Z.quot n par) by (apply Z.quot_pos; lia).
+    assert (Hmul : par * Z.quot n par <= n) by (apply Z.mul_quot_le; lia).
+    destruct (par_chunks_greedy eps (feasible eps) (seg_rel eps) (sinv eps)
+                (P_first eps Heps) (P_step eps Heps) (P_ok eps) (P_R eps Heps) (P_R_reject eps Heps)
+                kt n (Z.quot n par) par data (zseq 0 (Z.to_nat par)) segs fed count H Hcs Hn)
+      as (chunks & gs & C1 & C2 & C3 & C4 & C5).
+    { eapply Forall_impl; [|exact (zseq_range (Z.to_nat par) 0)].
+      intros i Hi. cbn beta in Hi. split; [lia|].
+      assert ((i + 1) * Z.quot n par <= par * Z.quot n par).
+      { apply Z.mul_le_mono_nonneg_r; lia. }
+      lia. }
+    destruct (chunk_shape_concat eps chunks gs C2) as [D1 D2].
+    exists (concat gs).
+    split; [split; [rewrite D1; exact C1 | exact D2]|].
+    split; [exact C4|].
+    split; [apply blocks_ok_of_Forall2; assumption|].
+    intros p Hp.
+    apply (make_segmentation_par_near_optimal eps (seg_rel eps) (sinv eps)
+             (P_first eps Heps) (P_step eps Heps) (P_ok eps) (P_R eps Heps) (P_R_reject eps Heps)
+             kt threshold par n data segs fed count); try assumption.
+    unfold make_segmentation_par. rewrite Eseq. exact H.
+Qed.
+
+Theorem make_segmentation_par_near_optimal_closed : forall kt threshold par n eps data segs fed count,
+  make_segmentation_par kt threshold par n eps data = Ok (segs, fed, count) ->
+  1 <= par -> zlen data <= n -> n + eps < 2 ^ 64 - 1 ->
+  forall p, is_partition (feasible eps) fed p -> count <= zlen p + (par - 1).
+Proof.
+  intros kt threshold par n eps data segs fed count H Hpar Hd Hn.
+  destruct (make_segmentation_par_sound kt threshold par n eps data segs fed count H Hpar Hd Hn)
+    as (g & _ & _ & _ & Hopt).
+  exact Hopt.
+Qed.
+
+(* end-to-end form of the reported-line property for one builder *)
+Theorem feed_all_reported_line : forall eps pts s0 s,
+  0 <= eps -> pla_init eps = Ok s0 -> pts <> [] -> ranks_ok eps pts ->
+  feed_all y_size_t s0 pts = Ok s ->
+  c_first (get_segment s) = fst (hd (0, 0) pts) /\
+  Forall (reported_line_close eps (get_segment s)) pts.
+Proof.
+  intros eps pts s0 s Heps Hinit Hne Hr Hfeed.
+  destruct (rect_inv_init eps s0 Hinit) as [Hrect0 _].
+  pose proof (sinv_init eps s0 Hinit) as Hs0.
+  destruct (feed_all_sinv eps pts [] s0 s Heps Hr Hrect0 Hs0 Hfeed) as [Hrect Hs].
+  cbn [app] in Hrect, Hs.
+  destruct (sinv_seg_rel eps pts s Heps Hne Hrect Hs) as (A & B & _).
+  split; assumption.
+Qed.
+
 Print Assumptions feed_all_sound.
+Print Assumptions reported_line_sound.
+Print Assumptions sinv_seg_rel.
+Print Assumptions make_segmentation_chunk_sound.
+Print Assumptions make_segmentation_sound.
+Print Assumptions make_segmentation_optimal_closed.
+Print Assumptions make_segmentation_par_sound.
+Print Assumptions make_segmentation_par_near_optimal_closed.
+Print Assumptions feed_all_reported_line.
